@@ -23,6 +23,7 @@ continuation):
   props: C15 C07            properties this function's obligations count for
   safety: C16               properties the generated safety checks count for
   attr: #[verifier::...]
+  spectail: opens_invariants none   further signature-level spec clauses emitted after `ensures` (one per line)
   mode: external_body       emit signature+contract only (body assumed; must be
                             proved under the same contract text elsewhere)
   sigsub: /regex/repl/      mechanical signature rewrite (named E-rule in DESIGN)
@@ -201,7 +202,7 @@ class FnSpec:
         self.ghost_tag = {}
 
 
-SECTION_RE = re.compile(r'^(props|safety|attr|mode|sigsub|bodysub\?|bodysub|ret|part|sig|requires|ensures|head|tail|loop\s+\d+|after\s+".*"\s*(?:#\d+)?|before\s+".*"\s*(?:#\d+)?|known\s+\w+)\s*:\s*(.*)$')
+SECTION_RE = re.compile(r'^(props|safety|attr|mode|spectail|sigsub|bodysub\?|bodysub|ret|part|sig|requires|ensures|head|tail|loop\s+\d+|after\s+".*"\s*(?:#\d+)?|before\s+".*"\s*(?:#\d+)?|known\s+\w+)\s*:\s*(.*)$')
 TAG_RE = re.compile(r'^\[([A-Z0-9, ]*?)(?:\s+([A-Za-z0-9_.-]+))?\]\s*(.*)$', re.S)
 
 
@@ -266,6 +267,8 @@ def parse_fn_block(header, lines):
             fn.attrs += [b.strip() for b in body if b.strip()]
         elif key == 'mode':
             fn.mode = first
+        elif key == 'spectail':
+            fn.spectail = getattr(fn, 'spectail', []) + [b.strip() for b in body if b.strip()]
         elif key == 'ret':
             fn.ret = first
         elif key == 'part':
@@ -643,6 +646,9 @@ class Generator:
         ens = fn.ensures + (known['ensures'] if known else [])
         emit_clauses('requires', req)
         emit_clauses('ensures', ens)
+        for t in getattr(fn, 'spectail', []):
+            # further signature-level spec clauses Verus wants after `ensures` (e.g. `opens_invariants none`, `no_unwind` on Drop::drop)
+            out.emit('        ' + t)
         rec = dict(qual=fn.qual, emit_name=emit_name, known=kid, props=fn.props, safety=fn.safety, excluded=getattr(fn, 'excluded', False),
                    src=fn.src, start_line=start_line, clauses=clauses, mode=fn.mode, fnspec=fn,
                    src_lines=[src.text.count('\n', 0, loc['start']) + 1, src.text.count('\n', 0, loc['body_close']) + 1])
